@@ -264,8 +264,8 @@ defvjp(
 )
 defvjp(
     anp.linspace,
-    lambda ans, start, stop, num: unbroadcast_f(start, lambda g: anp.dot(anp.linspace(1.0, 0.0, num), g)),
-    lambda ans, start, stop, num: unbroadcast_f(stop, lambda g: anp.dot(anp.linspace(0.0, 1.0, num), g)),
+    lambda ans, start, stop, num: unbroadcast_f(start, lambda g: anp.tensordot(anp.linspace(1.0, 0.0, num), g, 1)),
+    lambda ans, start, stop, num: unbroadcast_f(stop, lambda g: anp.tensordot(anp.linspace(0.0, 1.0, num), g, 1)),
 )
 
 defvjp(
